@@ -345,36 +345,45 @@ func (t *T) IsKeyValueType() bool {
 	return t.tType == KEYVALUE
 }
 
+// isCoveredBy reports whether every typed variant of the union t has a
+// variant of the same type (and, for objects, the same class) in targetT
+func (t *T) isCoveredBy(targetT *T) bool {
+	for _, variantT := range t.variants {
+		if variantT.tType == UNTYPED {
+			continue
+		}
+
+		isContain := false
+
+		for _, targetVariantT := range targetT.variants {
+			if variantT.tType != targetVariantT.tType {
+				continue
+			}
+
+			if variantT.tType == OBJECT &&
+				variantT.GetObjectClass() != targetVariantT.GetObjectClass() {
+				continue
+			}
+
+			isContain = true
+			break
+		}
+
+		if !isContain {
+			return false
+		}
+	}
+
+	return true
+}
+
 func (t *T) IsMatchType(targetT *T) bool {
 	if t == nil || targetT == nil {
 		return false
 	}
 
 	if t.IsUnionType() && targetT.IsUnionType() {
-		targetTypes := targetT.GetVariantTypes()
-		tTypes := t.GetVariantTypes()
-
-		for _, tType := range tTypes {
-			if tType == UNTYPED {
-				continue
-			}
-
-			if !slices.Contains(targetTypes, tType) {
-				return false
-			}
-		}
-
-		for _, targetType := range targetTypes {
-			if targetType == UNTYPED {
-				continue
-			}
-
-			if !slices.Contains(tTypes, targetType) {
-				return false
-			}
-		}
-
-		return true
+		return t.isCoveredBy(targetT) && targetT.isCoveredBy(t)
 	}
 
 	if t.tType == OBJECT && targetT.tType == OBJECT {
